@@ -1,9 +1,98 @@
+import OpusModel.SilkPlcConceal
+import OpusModel.SilkPlcCng
+import OpusModel.SilkPlcGlue
 import Driver.Util
-/-! Suite `silkplc` (line protocol, DESIGN.md §4): stub registered in Driver/Main.lean; the owner fills in `handle`. -/
+/-! Suite `silkplc` (C09 extension `SilkPlc`): SILK concealment / comfort noise value model against the real
+    silk_PLC / silk_CNG / silk_PLC_glue_frames on live decoder states (harness/c09_silkplc.c).  Lists are `a,b,c`
+    (`-` = empty).  A PLC state is the 13 tokens
+      pitchL_Q8 LTPCoef_Q14[5] prevLPC_Q12[16] last_frame_lost rand_seed randScale_Q14 conc_energy conc_energy_shift
+      prevLTP_scale_Q14 prevGain_Q16[2] fs_kHz nb_subfr subfr_length.
+
+    conceal fs nb L sl ltpMem order lossCnt prevSig firstAfterReset exc_Q14[320] sLPC_Q14_buf[16] outBuf[480] <plc>
+        → silk_PLC( …, lost = 1 ):  `OK f=<frame> sLPC=… lossCnt=… prevSig=… pitchL=<ctrl pitchL[4]> plc= <plc>` / ABORT
+    upd fs nb L sl order signalType pitchL[4] Gains_Q16[4] PredCoef_Q12[1][16] LTPCoef_Q14[20] LTP_scale_Q14 <plc>
+        → silk_PLC( …, lost = 0 ):  `OK prevSig=… plc= <plc>`
+    cng fs nb sl order lossCnt prevSig prevNLSF[16] exc_Q14 Gains_Q16[4] randScale prevGain1
+        CNG_exc_buf[320] smth_NLSF[16] synth_state[16] smth_Gain rand_seed fs_kHz frame
+        → silk_CNG:  `OK f=… exc=… nlsf=… st=… g=… seed=… fs=…`
+    glue lossCnt last_frame_lost conc_energy conc_energy_shift frame
+        → silk_PLC_glue_frames:  `OK f=… lfl=… ce=… cs=…`                                                   -/
 namespace Driver.SuiteSilkPlc
+open Opus Opus.SilkPlc Driver
+
+def parsePlc : List String → Option Plc
+  | [pq8, ltp, lpc, lfl, seed, rs, ce, cs, pls, pg, fs, nb, sl] => do
+    some { pitchLQ8 := ← parseInt pq8, ltpCoef := ← parseIntList ltp, prevLPC := ← parseIntList lpc,
+           lastFrameLost := ← parseInt lfl, randSeed := ← parseInt seed, randScale := ← parseInt rs,
+           concEnergy := ← parseInt ce, concEnergyShift := ← parseInt cs, prevLtpScale := ← parseInt pls,
+           prevGain := ← parseIntList pg, fsKHz := ← parseInt fs, nbSubfr := ← parseInt nb, subfrLength := ← parseInt sl }
+  | _ => none
+
+def plcStr (p : Plc) : String :=
+  s!" {p.pitchLQ8} {intList p.ltpCoef} {intList p.prevLPC} {p.lastFrameLost} {p.randSeed} {p.randScale} {p.concEnergy} " ++
+  s!"{p.concEnergyShift} {p.prevLtpScale} {intList p.prevGain} {p.fsKHz} {p.nbSubfr} {p.subfrLength}"
+
+def csv (l : List Int) : String := if l.isEmpty then "-" else intList l
 
 def handle (args : List String) : String :=
   match args with
+  | "conceal" :: fs :: nb :: fl :: sl :: ltpMem :: order :: lossCnt :: prevSig :: ffar :: exc :: slpc :: outBuf :: plc =>
+    match parseInt fs, parseNat nb, parseNat fl, parseNat sl, parseNat ltpMem, parseNat order, parseInt lossCnt,
+          parseInt prevSig, parseInt ffar, parseIntList exc, parseIntList slpc, parseIntList outBuf, parsePlc plc with
+    | some fs, some nb, some fl, some sl, some ltpMem, some order, some lossCnt, some prevSig, some ffar, some exc,
+      some slpc, some outBuf, some plc =>
+      let d : Dec := { fsKHz := fs, nbSubfr := nb, frameLength := fl, subfrLength := sl, ltpMemLength := ltpMem,
+                       lpcOrder := order, lossCnt := lossCnt, prevSignalType := prevSig, firstFrameAfterReset := ffar,
+                       signalType := 0, excQ14 := exc, sLPC := slpc, outBuf := outBuf, plc := plc }
+      let c : Ctrl := { pitchL := [], gains := [], predCoef1 := [], ltpCoef := [], ltpScale := 0 }
+      match silkPLC d c true with
+      | .ok o =>
+        s!"OK f={csv o.frame} sLPC={csv o.dec.sLPC} lossCnt={o.dec.lossCnt} prevSig={o.dec.prevSignalType} " ++
+        s!"pitchL={csv o.pitchL} plc={plcStr o.dec.plc}"
+      | .abort => "ABORT"
+      | .oob => "OOB"
+      | .err e => errStr e
+    | _, _, _, _, _, _, _, _, _, _, _, _, _ => "bad-op"
+  | "upd" :: fs :: nb :: fl :: sl :: order :: sig :: pitchL :: gains :: pred :: ltp :: ltpScale :: plc =>
+    match parseInt fs, parseNat nb, parseNat fl, parseNat sl, parseNat order, parseInt sig, parseIntList pitchL,
+          parseIntList gains, parseIntList pred, parseIntList ltp, parseInt ltpScale, parsePlc plc with
+    | some fs, some nb, some fl, some sl, some order, some sig, some pitchL, some gains, some pred, some ltp,
+      some ltpScale, some plc =>
+      let d : Dec := { fsKHz := fs, nbSubfr := nb, frameLength := fl, subfrLength := sl, ltpMemLength := 0,
+                       lpcOrder := order, lossCnt := 0, prevSignalType := 0, firstFrameAfterReset := 0,
+                       signalType := sig, excQ14 := [], sLPC := [], outBuf := [], plc := plc }
+      let c : Ctrl := { pitchL := pitchL, gains := gains, predCoef1 := pred, ltpCoef := ltp, ltpScale := ltpScale }
+      match silkPLC d c false with
+      | .ok o => s!"OK prevSig={o.dec.prevSignalType} plc={plcStr o.dec.plc}"
+      | .abort => "ABORT"
+      | .oob => "OOB"
+      | .err e => errStr e
+    | _, _, _, _, _, _, _, _, _, _, _, _ => "bad-op"
+  | ["cng", fs, nb, sl, order, lossCnt, prevSig, prevNlsf, exc, gains, rs, pg1, excBuf, nlsf, st, sg, seed, cfs, frame] =>
+    match parseInt fs, parseNat nb, parseNat sl, parseNat order, parseInt lossCnt, parseInt prevSig, parseIntList prevNlsf,
+          parseIntList exc, parseIntList gains, parseInt rs, parseInt pg1 with
+    | some fs, some nb, some sl, some order, some lossCnt, some prevSig, some prevNlsf, some exc, some gains, some rs, some pg1 =>
+      match parseIntList excBuf, parseIntList nlsf, parseIntList st, parseInt sg, parseInt seed, parseInt cfs, parseIntList frame with
+      | some excBuf, some nlsf, some st, some sg, some seed, some cfs, some frame =>
+        let x : CngIn := { fsKHz := fs, nbSubfr := nb, subfrLength := sl, lpcOrder := order, lossCnt := lossCnt,
+                           prevSignalType := prevSig, prevNLSF := prevNlsf, excQ14 := exc, gains := gains,
+                           randScale := rs, prevGain1 := pg1 }
+        let c : Cng := { excBuf := excBuf, smthNLSF := nlsf, synthState := st, smthGain := sg, randSeed := seed, fsKHz := cfs }
+        match silkCNG x c frame with
+        | .ok (f, c') =>
+          s!"OK f={csv f} exc={csv c'.excBuf} nlsf={csv c'.smthNLSF} st={csv c'.synthState} g={c'.smthGain} " ++
+          s!"seed={c'.randSeed} fs={c'.fsKHz}"
+        | .abort => "ABORT"
+        | .oob => "OOB"
+        | .err e => errStr e
+      | _, _, _, _, _, _, _ => "bad-op"
+    | _, _, _, _, _, _, _, _, _, _, _ => "bad-op"
+  | ["glue", lossCnt, lfl, ce, cs, frame] =>
+    match parseInt lossCnt, parseInt lfl, parseInt ce, parseInt cs, parseIntList frame with
+    | some lossCnt, some lfl, some ce, some cs, some frame =>
+      let r := glueFrames { lossCnt := lossCnt, lastFrameLost := lfl, concEnergy := ce, concEnergyShift := cs } frame
+      s!"OK f={csv r.1} lfl={r.2.lastFrameLost} ce={r.2.concEnergy} cs={r.2.concEnergyShift}"
+    | _, _, _, _, _ => "bad-op"
   | _ => "bad-op"
 
 end Driver.SuiteSilkPlc
